@@ -238,12 +238,30 @@ FAMILY = {'replace': 'one', 'setattr': 'one', 'remove': 'del', 'cut': 'del', 'de
           'insert': 'slice', 'append': 'slice', 'put_slice': 'slice', 'setslice': 'slice'}
 
 
+def _in_debug_fstring(root_ast, path):
+    """is some node on the path a FormattedValue of a self-documenting field `{expr=}` (or below one)?"""
+    n = root_ast
+    for f, i in path:
+        parent = n
+        n = getattr(n, f)
+        if i is not None:
+            n = n[i]
+        if isinstance(parent, ast.JoinedStr) and isinstance(n, ast.FormattedValue) and i:
+            prev = parent.values[i - 1]
+            if isinstance(prev, ast.Constant) and isinstance(prev.value, str) and prev.value.rstrip().endswith('='):
+                return True
+    return False
+
+
 def edit_signature(root_before_ast, rec):
-    """(family, slot, what): slot = [Grandparent>]ParentKind.field[ctx], what = donor kind(s) or deleted kind"""
+    """(family, slot, what): slot = [Grandparent>]ParentKind.field[@tag...], what = donor kind(s) or deleted kind"""
     try:
         path = [tuple(p) for p in rec['path']]
         tgt = nav(root_before_ast, path)
         fam = FAMILY[rec['op']]
+        tags = ''
+        if _in_debug_fstring(root_before_ast, path):
+            tags += '@in-debug-fstring'
         if fam in ('one', 'del'):
             parent = nav(root_before_ast, path[:-1]) if path else None
             field = path[-1][0] if path else ''
@@ -256,14 +274,21 @@ def edit_signature(root_before_ast, rec):
             ctx = getattr(tgt, 'ctx', None)
             if ctx is not None and not isinstance(ctx, ast.Load):
                 slot += f'@{ctx.__class__.__name__}'
+            if fam == 'del' and isinstance(parent, (ast.Try, getattr(ast, 'TryStar', ast.Try))) and field == 'handlers' \
+                    and len(parent.handlers) == 1 and parent.orelse:
+                slot += '@last-handler-with-else'
             what = rec.get('donor_kind') if fam == 'one' else tgt.__class__.__name__
-            return fam, slot, what
+            return fam, slot + tags, what
         slot = f'{tgt.__class__.__name__}.{rec["field"]}'
         ctx = getattr(tgt, 'ctx', None)
         if ctx is not None and not isinstance(ctx, ast.Load):
             slot += f'@{ctx.__class__.__name__}'
-        if isinstance(tgt, ast.Try) and rec['field'] == 'orelse' and not tgt.handlers:
+        if isinstance(tgt, (ast.Try, getattr(ast, 'TryStar', ast.Try))) and rec['field'] == 'orelse' and not tgt.handlers:
             slot += '@no-handlers'
-        return fam, slot, '+'.join(sorted(set(rec.get('donor_kinds', []))))
+        if isinstance(tgt, ast.Tuple) and path:
+            parent = nav(root_before_ast, path[:-1])
+            if isinstance(parent, ast.withitem) and parent.optional_vars is None and path[-1][0] == 'context_expr':
+                slot += '@with-sole-tuple'
+        return fam, slot + tags, '+'.join(sorted(set(rec.get('donor_kinds', []))))
     except Exception:
         return '?', '?', '?'
